@@ -15,7 +15,7 @@
    the DelayedCall armed with that delay at issue fires"; that the reactor fires it on time is Twisted's business. *)
 From AV Require Import Base.Util Model.Framing Proofs.BrokerClientInv.
 From AV Require Model.BrokerClient.
-From AV Require Import Model.ClientReq Proofs.ClientReqC11.
+From AV Require Import Model.ClientReq Proofs.ClientReqC11 Proofs.ClientReqC11b.
 
 (* Issue: a request that is accepted (the call raises nothing) arms exactly one DelayedCall, with delay
    max(timeout, min_timeout) (timeout alone when no minimum is given); from ANY state, for any node, any flags. *)
@@ -51,16 +51,24 @@ Theorem C11_bound : forall g evs i b h d t to,
 Proof. exact c11_bound. Qed.
 Print Assumptions C11_bound.
 
-(* The same for a request made on behalf of a broker-agnostic operation (or any other owner), as far as the broker client
-   is concerned: the armed DelayedCall t is registered for exactly this request, and cancelling it fires its Deferred.
-   PARTIAL: what the operation does next (next broker, bootstrap) is not part of this statement. *)
-Theorem C11_bound_any_partial : forall g evs i b h q t,
+(* The same for a request of ANY owner (in particular one made on behalf of a broker-agnostic operation, whose continuation
+   - next broker, bootstrap, failure of the operation - runs in the same step): the armed DelayedCall t is registered for
+   exactly this request, cancelling it fires its Deferred, and at the end of the step in which t fires the Deferred
+   has fired (and, by C11_timer_released, its timer is gone). *)
+Theorem C11_bound_any : forall g evs i b h q t,
+  nth_error (c_bcs (fst (run (init g) evs))) i = Some b -> nth_error (b_reqs b) h = Some q -> q_timer q = Some t ->
+  exists b', nth_error (c_bcs (fst (step (fst (run (init g) evs)) (ETimer t)))) i = Some b'
+             /\ In h (BrokerClient.t_fired (BrokerClient.s_t (b_st b'))) /\ b_node b' = b_node b.
+Proof. exact c11_bound_any_full. Qed.
+Print Assumptions C11_bound_any.
+
+Theorem C11_timer_registered : forall g evs i b h q t,
   nth_error (c_bcs (fst (run (init g) evs))) i = Some b -> nth_error (b_reqs b) h = Some q -> q_timer q = Some t ->
   nth_error (c_timers (fst (run (init g) evs))) t = Some (TReq i h)
   /\ exists s', BrokerClient.step (b_st b) (BrokerClient.ECancel h) = (s', [BrokerClient.ODef h BrokerClient.FailCancelled])
                 /\ In h (BrokerClient.t_fired (BrokerClient.s_t s')).
 Proof. exact c11_bound_any. Qed.
-Print Assumptions C11_bound_any_partial.
+Print Assumptions C11_timer_registered.
 
 (* Late reply.  In any reachable state, a response frame whose id belongs to no unanswered, uncancelled request of that
    connection (timed out earlier, never made, already answered): no output at all - nothing fires, nothing is written,
